@@ -24,7 +24,7 @@ RULE = (
     "strings: every sequence of <=3 atoms (quick and thorough; thorough adds an index-sampled slice of length 4) over "
     "a 58-atom alphabet with one representative per lexer class, placed at 11 (position,key) sites "
     "(assignment/META/nested META/list of 1,2,3 items/inline-map value x keys K,PATTERN,REGEX); plus Hypothesis "
-    "text<=60, ints, finite floats, bools, None; plus octave_write(changes/mutations) then read of the file. "
+    "text<=60, near-bare strings (1-2 edits away from annotation/expression/variable/version shapes), ints, finite floats, bools, None; plus octave_write(changes/mutations) then read of the file. "
     "Oracle: parse(emit(doc)) returns the same value with the same type (str after NFC) and the sentinel neighbour "
     "is intact. Non-trivial = the string is not a plain identifier (contains a non-alphanumeric or reserved atom) "
     "or the scalar is not a string; distinct by (value, site), enumerated without repetition."
@@ -166,7 +166,8 @@ def _unescape_single(s: str) -> str:
 
 
 def _universal_newlines(s: str) -> str:
-    return s.replace("\r\n", "\n").replace("\r", "\n")
+    # in the written file a value's LF is always the escape \\n, so every raw CR stands alone and becomes LF
+    return s.replace("\r", "\n")
 
 
 def classify(site, key, v, obs: str, got=None, have_got=False) -> str:
@@ -295,7 +296,9 @@ def scalar_strategy():
         st.floats(allow_nan=False, allow_infinity=False, width=64),
         st.sampled_from([0.0, -0.0, 1e308, -1e308, 5e-324, 1.5, -2.25, 1e16, 1e-7, 123456789.123456789, 1e22, 1e21]),
     )
-    val = st.one_of(text, hostile, ints, floats, st.booleans(), st.none())
+    from vf.model import nearbare
+
+    val = st.one_of(text, hostile, nearbare(), nearbare(), ints, floats, st.booleans(), st.none())
     return st.tuples(st.sampled_from(SITES), val)
 
 
